@@ -299,6 +299,56 @@ def rule_reach_whole_dag(ctx: Ctx) -> None:
                      construct="find_incompatible_edges: reachability on a partial graph")
 
 
+def rule_validate_shape(ctx: Ctx) -> None:
+    """validate.shape: CircuitDAG.validate is the guard every solver move is followed by.  It (a) asserts that the graph is acyclic,
+    (b) raises when a node without incoming edges is not an Input operation, (c) raises when a node without outgoing edges is not an
+    Output operation.  The polarity of (b) and (c) is decided on the truth table of the loop body; the node selections on their
+    filters (degree == 0 over in_degree() / out_degree())."""
+    from ..boolform import Table
+    repo = ctx.repo
+    m = repo.module(DAG)
+    fn = repo.anchor(DAG, "CircuitDAG.validate")
+    ctx.touch(m, fn)
+    acyc = [a for a in fn.body if isinstance(a, ast.Assert) and isinstance(a.test, ast.Call) and call_name(a.test) == "nx.is_directed_acyclic_graph"
+            and a.test.args and norm(a.test.args[0]) == "self.dag"]
+    rais = [i for i in fn.body if isinstance(i, ast.If) and any(isinstance(x, ast.Raise) for x in i.body) and any(
+        isinstance(c, ast.Call) and call_name(c) == "nx.is_directed_acyclic_graph" for c in ast.walk(i.test))]
+    if acyc or (rais and isinstance(rais[0].test, ast.UnaryOp)):
+        ctx.ok("validate.shape", m, (acyc or rais)[0], what="acyclicity of self.dag asserted")
+    else:
+        ctx.fail("validate.shape", m, fn, "validate() no longer asserts nx.is_directed_acyclic_graph(self.dag)", func="CircuitDAG.validate",
+                 construct="validate: acyclicity check")
+    for deg, cls_ in (("in_degree", "Input"), ("out_degree", "Output")):
+        sel = [a for a in fn.body if isinstance(a, ast.Assign) and isinstance(a.value, ast.ListComp) and any(
+            isinstance(c, ast.Call) and call_attr(c) == deg for c in ast.walk(a.value.generators[0].iter))]
+        if len(sel) != 1:
+            raise AnalysisError(f"validate: selection of the nodes with {deg} == 0 not found")
+        g = sel[0].value.generators[0]
+        tg = [norm(e) for e in g.target.elts] if isinstance(g.target, ast.Tuple) else []
+        okf = len(g.ifs) == 1 and isinstance(g.ifs[0], ast.Compare) and len(g.ifs[0].ops) == 1 and isinstance(g.ifs[0].ops[0], ast.Eq) and len(tg) == 2 \
+            and {norm(g.ifs[0].left), norm(g.ifs[0].comparators[0])} == {tg[1], "0"} and norm(sel[0].value.elt) == tg[0]
+        if not okf:
+            ctx.fail("validate.shape", m, sel[0], f"validate selects `{short(sel[0].value, 80)}`; it must be the nodes whose {deg} is 0", func="CircuitDAG.validate",
+                     construct=f"validate: {deg} selection")
+            continue
+        lv = norm(sel[0].targets[0])
+        loop = next((l for l in fn.body if isinstance(l, ast.For) and norm(l.iter) == lv), None)
+        if loop is None:
+            raise AnalysisError(f"validate: loop over `{lv}` not found")
+        tb = Table()
+        run = tb.outcomes(loop.body)
+        inst = [k for k in tb.atoms if k.startswith("isinstance(") and k.rstrip(")").endswith(cls_)]
+        if len(inst) != 1 or len(tb.atoms) != 1:
+            raise AnalysisError(f"validate: the test on the {cls_} class was not found in the loop over `{lv}`")
+        k = inst[0]
+        good = run({k: True}) != ("raise", None) and run({k: False}) == ("raise", None)
+        if good:
+            ctx.ok("validate.shape", m, loop, what=f"raises exactly when a node with {deg} 0 is not {cls_}")
+        else:
+            ctx.fail("validate.shape", m, loop, f"validate does not raise exactly when a node with {deg} == 0 is not an {cls_} operation (polarity / class)",
+                     func="CircuitDAG.validate", construct=f"validate: {cls_} test polarity")
+
+
 def rule_reg_ensure(ctx: Ctx) -> None:
     """reg.ensure: CircuitDAG.add makes sure that *every* quantum register the operation acts on exists before the operation is wired in:
     `_add_reg_if_absent` runs for each of them, unconditionally (the method itself does nothing for a register that exists).  A guard
@@ -342,6 +392,7 @@ def _ancs(n):
 
 def run(ctx: Ctx) -> None:
     rule_reg_ensure(ctx)
+    rule_validate_shape(ctx)
     from .c13 import rule_rewrite_order
     rule_rewrite_order(ctx)
     from ..rules import order as _order
@@ -370,6 +421,8 @@ def run(ctx: Ctx) -> None:
 
 
 KNOCKOUTS = [
+    Knockout("validate-source-test-inverted", DAG, sub_once('            if not isinstance(self.dag.nodes[input_node]["op"], ops.Input):', '            if isinstance(self.dag.nodes[input_node]["op"], ops.Input):'), "validate.shape", "Input test polarity"),
+    Knockout("validate-sinks-by-degree-one", DAG, sub_once("            node for node, out_degree in self.dag.out_degree() if out_degree == 0", "            node for node, out_degree in self.dag.out_degree() if out_degree == 1"), "validate.shape", "out_degree selection"),
     Knockout("add-ensures-registers-only-for-highest-index", DAG, sub_nth("        for i in range(len(register)):\n            self._add_reg_if_absent(\n                register=register[i],\n                reg_type=reg_type[i],\n            )\n", "        if register[-1] >= len(self._registers[reg_type[-1]]):\n            for i in range(len(register)):\n                self._add_reg_if_absent(\n                    register=register[i],\n                    reg_type=reg_type[i],\n                )\n", 0), "reg.ensure", "conditionally"),
     Knockout("depth-entry-dropped", DAG, sub_once("            self._register_depth[reg_type].append(0)\n", ""), "own.registers", "without their depth entry"),
     Knockout("export-node-order", "graphiq/circuit/circuit_dag.py", sub_once("        for op in self.sequence():\n            if isinstance(op, ops.InputOutputOperationBase):", "        for op in [self.dag.nodes[k]['op'] for k in self.dag.nodes]:\n            if isinstance(op, ops.InputOutputOperationBase):"), "order.topological", "node-creation order"),
